@@ -30,7 +30,7 @@ PROPS["C15"] = {
         Job("soyhtml", "H_textlex", "5,0", tier="thorough", workers=16, maxfan=16),
         Job("soyhtml", "H_textlex", "3,3..11", tier="thorough", workers=16, maxfan=16, note="after commands holding comments"),
     ],
-    "bounds_quick": "rawtext(s,trimBefore,trimAfter) vs the line-joining rule: every ASCII string (bytes 1..127) of length <= 4 with both flags symbolic; order-preservation of non-whitespace bytes over all 256 byte values for length <= 3; the whole chain lexer -> text/comment tokens -> rawtext -> render for every template body of <= 3 characters over {a < > space LF CR / * :} between prints, at template start and at template end, and (<= 2 characters; thorough 3) after 7 commands that hold comments of their own (between call params, before a switch case, inside if/foreach/let/param blocks), directly after a header param declaration, and as the text of a message (<= 4 characters: tags become placeholders and are written back unchanged) (comment-free: exact output; with comments: exactly the non-whitespace characters outside comments; unclosed block comment: error); literal blocks of <= 3 characters over {a space { } LF CR TAB / < *} and all special-character commands",
+    "bounds_quick": "rawtext(s,trimBefore,trimAfter) vs the line-joining rule: every ASCII string (bytes 1..127) of length <= 4 with both flags symbolic; order-preservation of non-whitespace bytes over all 256 byte values for length <= 3; the whole chain lexer -> text/comment tokens -> rawtext -> render for every template body of <= 3 characters over {a < > space LF CR / * :} between prints, at template start and at template end, and (<= 2 characters; thorough 3) after 7 commands that hold comments of their own (between call params, before a switch case, inside if/foreach/let/param blocks), directly after a header param declaration, and as the text of a message (<= 4 characters: tags become placeholders and are written back unchanged) (comment-free: exact output; with comments: exactly the non-whitespace characters outside comments; unclosed block comment: error); literal blocks of <= 3 characters over {a space { } LF CR TAB / < *} and all special-character commands; message text over the same alphabet with a capital letter, after the message pass of a bundle compilation has run",
     "bounds_thorough": "as quick, ASCII length <= 5; template bodies of 4 characters in all contexts and 5 between prints",
     "outside": "longer text runs",
     "assumptions": ["refRawtext (harness) is the statement's rule written over maximal whitespace runs"],
@@ -69,7 +69,7 @@ PROPS["C12"] = {
         Job("soyhtml", "H_fault", "7..8,4,0..3", workers=8, maxfan=300, note="untranslated plural, n=1"),
         Job("soyhtml", "H_fault", "0..14,2..3,1", tier="thorough", workers=16),
     ],
-    "bounds_quick": "15 templates (incl. prints ending in each encoding directive, a template that calls itself, static-text-only templates, directly and through a call, and a template without output) covering every write site (incl. loops over 9 and 10 items) of the tree walker (raw text, escaped/unescaped print, css, literal, special chars, msg text/html tag/placeholder, plural messages (as the last output and followed by output; source cases and the cases of a translating bundle), let and param content blocks, log, call, data=all call, foreach, switch; the msg template also with a translating message bundle) x 4 data strings; four writer models: sticky failure from a symbolically chosen Write call, the same with a symbolic accepted prefix of the failing call (2 data strings), a writer with a symbolic byte capacity that still accepts empty writes once full, and a transient failure of exactly one symbolically chosen call",
+    "bounds_quick": "15 templates (incl. prints ending in each encoding directive, a template that calls itself, static-text-only templates, directly and through a call, and a template without output) covering every write site (incl. loops over 9 and 10 items) of the tree walker (raw text, escaped/unescaped print, css, literal, special chars, msg text/html tag/placeholder, plural messages (as the last output and followed by output; source cases and the cases of a translating bundle), let and param content blocks, log, call, data=all call, foreach, switch; the msg template also with a translating message bundle) x 4 data strings; four writer models: sticky failure from a symbolically chosen Write call, the same with a symbolic accepted prefix of the failing call (2 data strings), a writer with a symbolic byte capacity that still accepts empty writes once full, and a transient failure of exactly one symbolically chosen call (reported as a plain error, or as an error whose Temporary() and Timeout() are true)",
     "bounds_thorough": "short writes for all 4 data strings",
     "outside": "templates other than the listed ones; writers that fail and later recover",
     "assumptions": ["writer models as listed in bounds; a write that fails accepts a prefix of its argument"],
@@ -129,7 +129,7 @@ PROPS["C10"] = {
         Job("soymsg", "H_fp", "26..40", tier="thorough", workers=8, qtimeout=3000, allow_inconclusive=True, note="3 blocks"),
         Job("soymsg", "H_id", "5..13,0..3", tier="thorough", workers=8, qtimeout=3000, allow_inconclusive=True, note="longer text"),
     ],
-    "bounds_quick": "fingerprint vs the official algorithm for every byte string of each length 0..25 (0, 1 and 2 twelve-byte blocks, every tail length); calcID with symbolic text (<= 4 bytes), description (2 bytes, two independent copies) and meaning (<= 2 bytes); the id of 8 structured messages (placeholders, html tags, plural) with a symbolic meaning (<= 2 bytes) and description against the official id of their placeholder string; base-name derivation (toUpperUnderscore and genBasePlaceholderName) for every identifier of <= 6 characters over the whole identifier alphabet (symbolic bytes; the five regular expressions run through the engine's regexp matcher) against a regexp-free reference; the base name of html tags (<n>, </n>, <n/>, <n x=..>) whose name is <= 3 characters over {a,b,i,p,Z,1,-,:,_,space} (pretty names, names ending at the first non-alphanumeric); the id/placeholder pass (parsepasses.ProcessMessages) on a message placed in 14 containers (if/elseif/else, switch cases, foreach/ifempty, for, let content, call param content - also nested -, log) against the same message at top level; message ids and placeholder names computed by two compilations running at once (happens-before check of every heap access, both run-queue disciplines) equal those computed alone; placeholder naming for a dictionary of 16 messages (five with their official placeholder string pinned, incl. text where '<' does not begin a tag) (incl. one expression under different directives / directive arguments / access styles and link tags differing in an attribute) under an arbitrary iteration order of each of the 4 map loops of setPlaceholderNames, one loop at a time",
+    "bounds_quick": "fingerprint vs the official algorithm for every byte string of each length 0..25 (0, 1 and 2 twelve-byte blocks, every tail length); calcID with symbolic text (<= 4 bytes), description (2 bytes, two independent copies) and meaning (<= 2 bytes); the id of 8 structured messages (placeholders, html tags, plural) with a symbolic meaning (<= 2 bytes) and description against the official id of their placeholder string; base-name derivation (toUpperUnderscore and genBasePlaceholderName) for every identifier of <= 6 characters over the whole identifier alphabet (symbolic bytes; the five regular expressions run through the engine's regexp matcher) against a regexp-free reference; the base name of html tags (<n>, </n>, <n/>, <n x=..>) whose name is <= 3 characters over {a,b,i,p,Z,1,-,:,_,space} (pretty names, names ending at the first non-alphanumeric); the id/placeholder pass (parsepasses.ProcessMessages) on a message placed in 14 containers (if/elseif/else, switch cases, foreach/ifempty, for, let content, call param content - also nested -, log) against the same message at top level; message ids and placeholder names computed by two compilations running at once (happens-before check of every heap access, both run-queue disciplines) equal those computed alone; placeholder naming for a dictionary of 16 messages (five with their official placeholder string pinned, incl. text where '<' does not begin a tag) (incl. one expression under different directives / directive arguments / access styles and link tags differing in an attribute) under an arbitrary iteration order of each of the 4 map loops of setPlaceholderNames, one loop at a time; two consecutive suffixed names taken before a base name needs suffixes; one nameless expression as plural selector and as print",
     "bounds_thorough": "fingerprint lengths up to 40; text up to 13 bytes, meaning up to 3",
     "outside": "strings longer than the bound; collision-freeness (a 63-bit id cannot be injective); the branch hi==0 && lo in {0,1} is a hash pre-image question: explored under a 3 s query timeout and counted as inconclusive when the solver gives up; several map loops permuted at once (only one loop's order influences the result, shown per loop); across-process stability follows from calcID reading nothing but the node",
     "assumptions": ["refFingerprint/refID/refNames (harness) are transliterations of the official SoyMsgIdComputer and MsgNode.genSubstUnitInfo; refID is validated on every run against the official ids pinned in soy's tests"],
@@ -208,7 +208,7 @@ PROPS["C06"] = {
         Job("soyhtml", "H_staleTranslation", "0..3,0..2", workers=8, maxsteps=400000),
         Job("soyhtml", "H_afterNotFound", "0..2", workers=4, maxsteps=400000),
     ],
-    "bounds": "every built-in function (and an unknown one) with 0..3 arguments of any of 9 value kinds (third argument int/string/undefined), ints in [-4,4]; every binary operator on every operand kind pair; every built-in print directive (and an unknown one) with 0..2 arguments of any kind on a value of any kind (json only on concrete-shaped values); soyhtml.EvalExpr on every operator with an undefined/erroring/well-typed left operand; 12 failing commands at call depth 0..2 in a bundle with and without a second file that redefines the same template names; rendering 3 templates (message at top level, one call deep, plural) through catalogues whose entries do not fit the message (unknown placeholder, plural for a plain message, missing plural case, no parts); soy.ParseGlobals on 29 valid/erroring/malformed definitions (incl. truncated escapes and unterminated literals) and on 24 expression contexts followed by 0..2 symbolic bytes of any value (line breaks included); step bound 400000 as unwinding assertion",
+    "bounds": "every built-in function (and an unknown one) with 0..3 arguments of any of 9 value kinds (third argument int/string/undefined), ints in [-4,4]; every binary operator on every operand kind pair; every built-in print directive (and an unknown one) with 0..2 arguments of any kind on a value of any kind (json only on concrete-shaped values); soyhtml.EvalExpr on every operator with an undefined/erroring/well-typed left operand; 12 failing commands at call depth 0..2 in a bundle with and without a second file that redefines the same template names; rendering 3 templates (message at top level, one call deep, plural) through catalogues whose entries do not fit the message (unknown placeholder, plural for a plain message, missing plural case, no parts); soy.ParseGlobals on 29 valid/erroring/malformed definitions (incl. truncated escapes and unterminated literals) and on files of three definitions that redefine or refer to an earlier (valid, undefined, erroring or malformed) one and on 24 expression contexts followed by 0..2 symbolic bytes of any value (line breaks included); step bound 400000 as unwinding assertion",
     "outside": "user-registered functions and directives; data recursion deeper than 2; file-system loading",
     "assumptions": ["rand.Int63n returns an arbitrary value in range"],
     "level_text": "Bounded symbolic model checking: ill-typed use is the input space - argument kinds are enumerated, payloads symbolic; an escaping panic, a deadlock or a path exceeding the step bound is an engine verdict that is then reproduced natively.",
@@ -258,12 +258,12 @@ PROPS["C09"] = {
         Job(".", "H_compileRace", "0,0", workers=2, note="two concurrent compilations"),
         Job(".", "H_compileRace", "1,14", workers=2, note="two concurrent compilations"),
     ],
-    "bounds": "as C08 for Tofu rendering (3 template sets, symbolic data, with/without obligatory directive), plus soyjs.Write of every file of a two-file bundle under both formatters; a happens-before (vector clock) check of every heap access of the scanner goroutine and the parser during 9 parses (valid file, lexical and syntax errors, nested expression parser, parse.Expr with and without trailing input); in every explored render/generation all memory reachable from the compiled registry, the caller's data and every package-level variable of the soy packages is frozen",
+    "bounds": "as C08 for Tofu rendering (3 template sets, symbolic data, with/without obligatory directive), plus soyjs.Write of every file of a two-file bundle under both formatters; a happens-before (vector clock) check of every heap access of the scanner goroutine and the parser during 9 parses (valid file, lexical and syntax errors, nested expression parser, parse.Expr with and without trailing input); in every explored render/generation all memory reachable from the compiled registry, the caller's data and every package-level variable of the soy packages is frozen; two renders at once (same or different template; through Tofu.Render, one shared Renderer or one each) on a bundle through which nothing was rendered before, 5 template sets, under the happens-before check (loads, stores, map operations; mutex, channel, WaitGroup and goroutine-creation edges) and both run-queue disciplines",
     "outside": "the interleavings themselves (no schedule is explored and the race detector is not a solver): the property is decided through the sufficient condition 'concurrent calls only read shared memory'; the documented-unsafe Bundle.recompiler; math/rand's internal lock; inside one parse only the accesses of the executions explored are checked for happens-before order (a confirmed finding is re-run natively under the Go race detector)",
     "assumptions": ["Go memory model: calls that only read shared memory and write memory they allocated themselves are race-free and compute what they compute alone"],
     "level_text": "Bounded symbolic model checking of a sufficient non-interference condition: during Tofu rendering and JavaScript generation no store reaches memory that another call could see (registry, data, package-level registries), established on every path with symbolic data.",
     "level_note": "Schedules are not explored; see outside_bounds. Trusted: go/ssa, gosym heap model, z3.",
-    "technique": "symbolic execution of the go/ssa form with a frozen-memory monitor over all shared state (sufficient condition for race freedom) and a vector-clock happens-before check of every heap access of concurrent parses and compilations, under two run-queue disciplines (an explored choice); not an exploration of all interleavings; races confirmed natively with -race",
+    "technique": "symbolic execution of the go/ssa form with a frozen-memory monitor over all shared state (unsynchronised writes: sufficient condition for race freedom; synchronised ones are left to the happens-before check) and a vector-clock happens-before check of every heap access and map operation of concurrent parses, compilations and renders, under two run-queue disciplines (an explored choice); not an exploration of all interleavings; races confirmed natively with -race",
 }
 
 # ---------------------------------------------------------------- C13
@@ -279,7 +279,7 @@ PROPS["C13"] = {
         Job(".", "H_bundle", "0..17,0", workers=8, timeout=400, per_map_site=r"^(ast|data|parse|parsepasses|soyhtml|soyjs|soymsg|template|bundle|globals)"),
         Job(".", "H_bundle", "0..17,1..5", workers=8, timeout=400, note="file insertion orders"),
     ],
-    "bounds": "real soy.NewBundle().AddTemplateString(..).AddGlobalsMap(..).Compile() + Tofu rendering + soyjs.Write (ES5 and ES6) for 8 bundles, each compiled twice from the same Bundle object and a third time through CompileToTofu (valid with messages/globals/map literals/cross-file calls; rejected by the data-ref checker, the parser, the globals pass; two independent errors; duplicate template name; header params without soydoc); every map-range site reached in the soy packages is given an arbitrary iteration order, one site at a time (all permutations up to 5 keys; for larger maps an arbitrary key first and an arbitrary key last); all 6 insertion orders of up to 3 files",
+    "bounds": "real soy.NewBundle().AddTemplateString(..).AddGlobalsMap(..).Compile() + Tofu rendering + soyjs.Write (ES5 and ES6) for 8 bundles, each compiled twice from the same Bundle object and a third time through CompileToTofu (valid with messages/globals/map literals/cross-file calls; rejected by the data-ref checker, the parser, the globals pass; two independent errors; duplicate template name; header params without soydoc); every map-range site reached in the soy packages is given an arbitrary iteration order, one site at a time (all permutations up to 5 keys; for larger maps an arbitrary key first and an arbitrary key last); all 6 insertion orders of up to 3 files; one bundle (a nameless expression printed in one file and selecting a plural in another) compiled as the first compilation of the process in both file orders against the absolute placeholder names",
     "outside": "two or more loops permuted simultaneously (order dependence that needs a particular combination); bundles outside the dictionary; file-system loading and the watcher",
     "assumptions": ["Go's randomised map iteration is modelled as an arbitrary permutation chosen through solver-visible choice variables; one-site-at-a-time argument of DESIGN 2.6"],
     "level_text": "Bounded symbolic model checking with the environment's nondeterminism (map iteration order, file insertion order) as the symbolic input: every result of compile, render and generate is compared with the reference run for every order within the bound.",
@@ -300,7 +300,7 @@ PROPS["C17"] = {
         Job("parse", "H_roundPrintOps", "0..16,0..16,0..2", workers=16),
         Job("parse", "H_roundParsed", "0..33,0..10", workers=16, note="from source: special words as function names, globals and keys"),
     ],
-    "bounds": "expression trees: every leaf kind (ints incl. negative and 2^53, floats incl. integral and exponent forms and 16 boundary magnitudes (2^63, 2^64, 1e15..1e22, 1e-7, max, min subnormal), bool, null, strings of 1 symbolic byte quoted by the real quoteString, data references with every access kind, globals, function calls, list and map literals, empty literals) alone and under negate/not/index/call/list/map/access-chain wrappers; every operator over every pair of 16 operand spellings (null-safe and plain accesses, calls, literals, signs, globals, $ij); flat chains of 150 operands under each binary operator and of 150 accesses; every operator inside each bracketing wrapper (with a symbolic string operand); string literals and map keys of any valid UTF-8 of <= 4 bytes; every operator (14 binary, 2 unary, ternary) over every operator in every operand position (depth 2); print commands with 0..2 directives with arguments; print commands over every operator pair (they start with parentheses, signs, keywords)",
+    "bounds": "expression trees: every leaf kind (ints incl. negative and 2^53, floats incl. integral and exponent forms and 16 boundary magnitudes (2^63, 2^64, 1e15..1e22, 1e-7, max, min subnormal), bool, null, strings of 1 symbolic byte quoted by the real quoteString, data references with every access kind, globals, function calls, list and map literals, empty literals) alone and under negate/not/index/call/list/map/access-chain wrappers; every operator over every pair of 16 operand spellings (null-safe and plain accesses, calls, literals, signs, globals, $ij); flat chains of 150 operands under each binary operator and of 150 accesses; every operator inside each bracketing wrapper (with a symbolic string operand); string literals and map keys of any valid UTF-8 of <= 4 bytes; every operator (14 binary, 2 unary, ternary) over every operator in every operand position (depth 2); print commands with 0..2 directives with arguments; print commands over every operator pair (they start with parentheses, signs, keywords); from source text: each of the 34 words the lexer treats specially as function name, global or key in 11 print-command shapes (what the parser rejects is outside)",
     "outside": "nesting depth > 2 of operators (parenthesisation is decided pairwise, so depth 2 covers each parent/child combination once); strings longer than 4 bytes",
     "assumptions": ["sameTree (harness): structural equality ignoring positions and the Quoted/Name presentation fields"],
     "level_text": "Bounded symbolic model checking over expression trees enumerated up to depth 2 with symbolic string bytes: print with the real String methods, parse with the real parser, compare structurally.",
@@ -324,7 +324,7 @@ PROPS["C19"] = {
         Job("parse", "H_parseCtx", "0..81,2,false", tier="thorough", workers=16, maxsteps=300000, note="k=2"),
         Job("parse", "H_errpos", "0..11,0..2,7", tier="thorough", workers=16, note="7 lines"),
     ],
-    "bounds": "parse errors: 12 fault kinds injected on a symbolically chosen line of a 4-line (thorough 7) template body with LF, CRLF and blank-line separators: file name, exact line (point faults) or line within [construct start, end of input] (constructs left open), same numbers in the message text; on the C05 context harnesses (arbitrary symbolic bytes) every parse error carries the given file name and a line within 1..1+count(LF). Render errors: failing command on a symbolically chosen line at call depth 0..2 across two files (in different namespaces and in one shared namespace); render errors of 8 kinds (undefined value, directive / function given a wrong argument, user function panicking with an error value, arithmetic error, unknown directive, failing condition, non-list loop) one and two calls deep in another file; render errors raised inside a {msg} (from the source and through a translating catalogue) whose message also occurs, and renders, in a called template before and after; render errors caused by a write failure at a symbolically chosen write of a 3-line template",
+    "bounds": "parse errors: 12 fault kinds injected on a symbolically chosen line of a 4-line (thorough 7) template body with LF, CRLF and blank-line separators: file name, exact line (point faults) or line within [construct start, end of input] (constructs left open), same numbers in the message text; on the C05 context harnesses (arbitrary symbolic bytes) every parse error carries the given file name and a line within 1..1+count(LF). Render errors: failing command on a symbolically chosen line at call depth 0..2 across two files (in different namespaces and in one shared namespace); render errors of 8 kinds (undefined value, directive / function given a wrong argument, user function panicking with an error value, arithmetic error, unknown directive, failing condition, non-list loop) one and two calls deep in another file; render errors raised inside a {msg} (from the source and through a translating catalogue) whose message also occurs, and renders, in a called template before and after; render errors caused by a write failure at a symbolically chosen write of a 3-line template; a failing expression inside a quoted attribute (call data=, param value=, call name= + data=) or a css command on a symbolically chosen line of the entry template",
     "outside": "column numbers are only required to agree between ErrFilePos and the message text; files longer than the bound",
     "assumptions": [],
     "level_text": "Bounded symbolic model checking: the fault position is a solver-chosen value and, on the context harnesses, the whole input suffix is symbolic; position bookkeeping of every error path reached is compared with the injected position.",
@@ -420,7 +420,7 @@ PROPS["C07"] = {
         Job("soyhtml", "H_datarefs", "2,2,true,false", tier="thorough", workers=16, timeout=3000),
         Job("soyhtml", "H_datarefs", "2,2,false,false", tier="thorough", workers=16, timeout=3000),
     ],
-    "bounds_quick": "bundles generated around binding structure: a template with params l, m and (by configuration) a / optional b, a body of at most 2 generated nodes up to nesting depth 2 among print ($a,$b,$c,$i,$ij.x), let value / let content (names a, c, ij), if, foreach, call (existing callee with optional params, callee with a required param, missing callee; data none/all/$m; param k, undeclared zz, required q; value or content param) plus a fixed trailer; the soydoc of the callee with a required param lists it before or after the optional one (a choice); a second generator profile restricted to binding structure (print, let value, let content, if, foreach; lets may be named like the loop variable) with 3 nodes, with and without the params a and b declared (so that every declared name can be used within the budget); CheckDataRefs accepts exactly the bundles the declarative rule set accepts; for accepted bundles a render with every declared param supplied triggers the lookup observer (hook) only for optional params a callee was not passed; the same bundles followed or preceded by a template with an unused param (state carried from one template's check to the next); both-param-styles rule on 3 concrete templates; 14 bundles with header or soydoc params, calls through an alias into a namespace and a sub-namespace (required / undeclared params of the aliased callee), incl. templates without a soydoc comment after a documented one (valid, or with one rule broken), compiled repeatedly through one Bundle value",
+    "bounds_quick": "bundles generated around binding structure: a template with params l, m and (by configuration) a / optional b, a body of at most 2 generated nodes up to nesting depth 2 among print ($a,$b,$c,$i,$ij.x), let value / let content (names a, c, ij), if, foreach, call (existing callee with optional params, callee with a required param, missing callee; data none/all/$m; param k, undeclared zz, required q; value or content param) plus a fixed trailer; the soydoc of the callee with a required param lists it before or after the optional one (a choice); a second generator profile restricted to binding structure (print, let value, let content, if, foreach; lets may be named like the loop variable) with 3 nodes, with and without the params a and b declared (so that every declared name can be used within the budget); CheckDataRefs accepts exactly the bundles the declarative rule set accepts; for accepted bundles a render with every declared param supplied triggers the lookup observer (hook) only for optional params a callee was not passed; the same bundles followed or preceded by a template with an unused param (state carried from one template's check to the next); both-param-styles rule on 3 concrete templates; 14 bundles with header or soydoc params, calls through an alias into a namespace and a sub-namespace (required / undeclared params of the aliased callee), incl. templates without a soydoc comment after a documented one (valid, or with one rule broken), compiled repeatedly through one Bundle value; a third generator profile (3 nodes: prints, lets named like callee params q/a/k, loops, calls with data=all or without data) for what data=all forwards",
     "bounds_thorough": "the other param-declaration configurations; binding-structure profile with 4 nodes. (3 nodes of the full grammar were tried: > 2.4 million paths, not finished in 50 min, not registered.)",
     "outside": "bundles beyond the size bound; {msg} bodies; several files/namespaces (the rules are per template and callee lookup is by qualified name)",
     "assumptions": ["c07Check (harness) is a declarative transcription of the rules in the property statement: references resolve to the innermost enclosing let defined earlier, a loop variable inside its loop, a declared param, or $ij; data=\"all\" forwards params (never lets) and counts as their use"],
